@@ -124,7 +124,7 @@ harnesses! {
         assert!((kx == ky) == (want == Ordering::Equal), "C10.kmer128.equal_iff_eq");
         reach!(want == Ordering::Less, "less");
     }
-    fn c10_q_minimiser_dna_k4_n6 [6] {
+    fn c10_q_minimiser_dna_k4_n6 [10] {
         // min over the k-mers of a window is its colexicographic minimiser
         let w = any_words::<2>();
         let s = arr::<Dna, 64, 2>(w);
@@ -143,7 +143,7 @@ harnesses! {
         assert!(colex_cmp(m.bs as u128, p2 as u128, 2, 4) != Ordering::Greater, "C10.min.le_window2");
         reach!(o == 30, "straddle");
     }
-    fn c10_q_seq_ord_after_truncate [8] {
+    fn c10_q_seq_ord_after_truncate [10] {
         // equal-length owned sequences, one shortened in place (stale bits past its end)
         let w = any_words::<2>();
         let src = arr::<Dna, 64, 2>(w);
@@ -159,11 +159,11 @@ harnesses! {
         core::mem::forget(a);
         core::mem::forget(b);
     }
-    fn c10_q_seq_dna_n1 [6] { seq_ord::<Dna>(1); }
-    fn c10_q_seq_dna_n2 [6] { seq_ord::<Dna>(2); }
+    fn c10_q_seq_dna_n1 [10] { seq_ord::<Dna>(1); }
+    fn c10_q_seq_dna_n2 [10] { seq_ord::<Dna>(2); }
     fn c10_q_seq_dna_n4 [10] { seq_ord::<Dna>(4); }
     fn c10_q_seq_mdna_n2 [10] { seq_ord::<masked::Dna>(2); }
-    fn c10_t_seq_dna_n3 [8] { seq_ord::<Dna>(3); }
+    fn c10_t_seq_dna_n3 [10] { seq_ord::<Dna>(3); }
     fn c10_t_seq_dna_n16 [34] { seq_ord::<Dna>(16); }
     fn c10_t_seq_miupac_n3 [18] { seq_ord::<masked::Iupac>(3); }
 }
